@@ -335,7 +335,7 @@ func writeFaultFamily(cases []writeCase, budget time.Duration) mc.Family {
 	}
 	return mc.Family{
 		Name: "write-fault-at-every-call-and-offset", Items: len(items), Budget: budget,
-		Rule: fmt.Sprintf("%d writer invocations (4 fonts, one of them with a 600-segment glyph, x {PFA, PFB, binary, no-eexec, WritePDF, default options} and 3 metrics values) x a transient fault at EVERY Write call index (%d calls in total) and a short write + error at EVERY byte offset (%d offsets); each must return a non-nil error; non-trivial = every case", len(cases), nCalls, nBytes),
+		Rule: fmt.Sprintf("%d writer invocations (4 fonts, one of them with a 600-segment glyph, x {PFA, PFB, binary, no-eexec, WritePDF, default options} and 3 metrics values) x a transient fault at EVERY Write call index (%d calls in total) and a short write + error at EVERY byte offset (%d offsets; persistent, or reported once with later writes succeeding); each must return a non-nil error; non-trivial = every case", len(cases), nCalls, nBytes),
 		Body: func(c *mc.Ctx, item int) mc.Verdict {
 			x := items[item]
 			wc := cases[x.c]
@@ -350,6 +350,10 @@ func writeFaultFamily(cases []writeCase, budget time.Duration) mc.Family {
 				b := x.first + c.Choose(min(block, p.bytes-x.first))
 				w.Limit = b
 				desc = fmt.Sprintf("%s: writer accepts only the first %d of %d bytes", wc.name, b, p.bytes)
+				if c.Choose(2) == 1 {
+					w.LimitOnce = true
+					desc = fmt.Sprintf("%s: the write that crosses byte %d of %d is short and fails, later writes succeed", wc.name, b, p.bytes)
+				}
 			}
 			err := wc.write(w)
 			c.Steps(w.Calls)
